@@ -92,6 +92,11 @@ theorem inv_step (s : State) (op : Op) (i : Inv s) (hg : Guard s op)
   | setAttr x =>
     simp only [step, Op.target]
     split <;> exact i
+  | setBlocks x ks =>
+    simp only [step, Op.target]
+    split
+    · exact i
+    · exact (sameTree_blocks s _).inv i
   | observe o => exact (observe_same s o).inv i
 
 
@@ -167,6 +172,11 @@ theorem step_ref (s : State) (op : Op) (e : Err) (i : Inv s)
   | setAttr x =>
     simp only [step, Op.target]
     split <;> exact fun _ => SameTree.refl s
+  | setBlocks x ks =>
+    simp only [step, Op.target]
+    split
+    · exact fun _ => SameTree.refl s
+    · exact fun _ => sameTree_blocks s _
   | observe o => exact fun _ => observe_same s o
 
 
